@@ -95,8 +95,8 @@ def bounds(tier):
     return {
         "families": {name: len(metas) for name, metas in fams.items()},
         "metadata_descriptions": sum(len(m) for m in fams.values()),
-        "seq": ("all sequences of 1..3 arguments over a 17-entry alphabet, 1..3 "
-                "over the 13-entry alphabet and 1..4 over a 10-entry alphabet"
+        "seq": ("all sequences of 1..3 arguments over a 17-entry alphabet and "
+                "1..4 over a 7-entry alphabet"
                 if thorough else
                 "all sequences of 1..2 arguments over a 13-entry alphabet and "
                 "1..3 over an 8-entry alphabet"),
@@ -108,7 +108,7 @@ def bounds(tier):
         "funcs": "meta_funcs: every assignment {absent, basis, diff_basis, both"
                  + (", both reversed" if thorough else "") + "} per used space "
                  "(listed in both orders) x gh_shape in {xyoz, face, edge, "
-                 "evaluator" + (", all ordered pairs" if thorough
+                 "evaluator" + (", the 10 ordered pairs with evaluator or xyoz" if thorough
                                 else ", 2 ordered pairs")
                  + "} x gh_evaluator_targets {absent, each space, "
                  + ("all ordered pairs" if thorough else "one pair") + "} on "
